@@ -134,7 +134,7 @@ fn bulk_text(rng: &mut Rng) -> Scenario {
         unit *= 2;
     }
     let n = total / unit;
-    let style = rng.below(6);
+    let style = if focus() { *rng.pick(&[0u64, 1, 0, 1, 5]) } else { rng.below(6) };
     let subjects: Vec<String> = (0..n)
         .map(|i| {
             let mut long = format!("p{i:05}");
@@ -193,7 +193,19 @@ fn giant(rng: &mut Rng) -> Scenario {
     Scenario { subjects, paths: vec![FIXED_PATH.to_string()], clock_start: CLOCK_FLOOR + rng.below(1 << 30), hash_seed: rng.next_u64(), ops }
 }
 
+/// Run indices 30 000-35 999 (the last sixth of the quick tier) are **focus runs**: the same generator
+/// with the rare ingredients turned up — bulk-text histories one in 40 and only with interned kinds
+/// of text (patterns), environment changes in every history. Two seeded changes whose catch in the
+/// quick tier hung on a one-in-15 000 coincidence (c15o: aliased output files and a file-system
+/// change between two compilations; c15ac: 8 MiB of distinct patterns) are what they are for.
+fn focus() -> bool {
+    (30_000..36_000).contains(&crate::histcheck::current_index())
+}
+
 pub fn scenario(rng: &mut Rng, tier: Tier) -> Scenario {
+    if focus() && rng.chance(1, 40) {
+        return bulk_text(rng);
+    }
     if rng.chance(1, 1_500) {
         return giant(rng);
     }
@@ -237,7 +249,7 @@ pub fn scenario(rng: &mut Rng, tier: Tier) -> Scenario {
     let w_thread = rng.range(0, 3);
     let w_epoch = rng.range(0, 3);
     let w_logger = rng.range(0, 2);
-    let w_env = rng.range(0, 2);
+    let w_env = if focus() { rng.range(0, 2).max(1) * 3 } else { rng.range(0, 2) };
     let total = w_parse + w_compile + w_render + w_iomap + w_unrelated + w_clock + w_thread + w_epoch + w_logger + w_env;
     // one run in a hundred is a long history (state that needs many calls to build up: bounded
     // caches, counters, interners)
@@ -296,6 +308,16 @@ pub fn scenario(rng: &mut Rng, tier: Tier) -> Scenario {
             Op::LoggerLevel { level: rng.below(5) as u8 }
         };
         ops.push(op);
+    }
+    if focus() {
+        // every input compiled under three different environments (variables, simulated file system,
+        // working directory) and a clock that stands still, back to back
+        for subj in 0..n_subjects {
+            for _ in 0..3 {
+                ops.push(Op::Compile { subj, slot: 0, script: clock_script(rng, TickPolicy::Frozen), twice: false });
+                ops.push(Op::EnvChange);
+            }
+        }
     }
     // one run in three also compares parse results with `==`: of one text parsed twice, and of a
     // text and a near miss of it (another unit for the same size, another spelling of a mode or
@@ -722,7 +744,7 @@ pub static PROP: crate::histcheck::HistProp = crate::histcheck::HistProp {
         "pre-1970 clocks are outside the property's domain (time tests embed an epoch second)",
         "caller threads are real OS threads released one operation at a time; no two calls into the library overlap",
     ],
-    quick_runs: 30_000,
+    quick_runs: 36_000,
     thorough_runs: 1_000_000,
     block: 500,
     cross_process: true,
